@@ -4,6 +4,14 @@ import json, shutil, sys
 from pathlib import Path
 
 SEEDED = Path("/verif/seeded")
+# changes that stopped being changes: their demonstration exposed a defect of the CLEAN tree, which has since been repaired in
+# /repo, and the repair makes the seeded change ineffective
+NOTES = {
+    "C06-r3-2": "not kept: the demonstration (wrappers of arguments that print alike share one cached symbol) failed on the clean tree "
+                "too -- a genuine defect, repaired by /repo commit f39c340; after the repair the change has no effect",
+    "C16-r3-1": "not kept: after /repo commit d09ee8b (a power of a vector expression is not a scalar factor) the weakened denominator "
+                "guard no longer lets b/(2*a) through; its demonstration passes with and without the change",
+}
 rows = []
 outs = [(o, "") for o in sorted(Path("/tmp/mut").glob("C*_out"))] + [(o, "r2-") for o in sorted(Path("/tmp/mut2").glob("C*_out"))] + [(o, "r3-") for o in sorted(Path("/tmp/mut3").glob("C*_out"))] + [(o, "r4-") for o in sorted(Path("/tmp/mut4").glob("C*_out"))]
 for out, tag in outs:
@@ -17,7 +25,7 @@ for out, tag in outs:
         ok = c.get("applies") and "2568 passed" in c.get("tests", "") and c.get("demo_exit_with_change") not in (0, None) \
             and c.get("demo_exit_without_change") == 0
         if not ok:
-            rows.append((f"{prop}-{tag}{k}", "NOT KEPT (could not be confirmed: %s)" % c, ""))
+            rows.append((f"{prop}-{tag}{k}", NOTES.get(f"{prop}-{tag}{k}", "NOT KEPT (could not be confirmed: %s)" % c), ""))
             continue
         d = SEEDED / f"{prop}-{tag}{k}"
         d.mkdir(parents=True, exist_ok=True)
